@@ -1377,8 +1377,8 @@ fn judge_verdict(top: &Path, tree: &Tree, invoke: Invoke, known: &KnownSet, stri
         Expect::Accept(f) => {
             let mut fc = inv_feat(&f);
             let mut f = f;
-            // two loaded modules that share a name: the CLI names a module by its joined import path, the language
-            // server by its file stem
+            // two loaded modules that share a name: both the CLI and the language server register a dependency's
+            // exports under its import path joined with `_` (prefix dropped), so `ma.ma` and `..ma.ma` collide
             let mut by_joined: BTreeMap<String, BTreeSet<String>> = BTreeMap::new();
             for e in &model.edges {
                 if let Target::File(t) = &e.target {
@@ -1387,19 +1387,7 @@ fn judge_verdict(top: &Path, tree: &Tree, invoke: Invoke, known: &KnownSet, stri
             }
             if by_joined.values().any(|v| v.len() > 1) {
                 fc.insert("collide=joined-path".into());
-            }
-            // the server looks exports up by joined path in a table keyed by file stem: another loaded file whose stem
-            // equals the joined path of an import answers for the wrong module
-            let stem_of = |t: &str| t.rsplit('/').next().unwrap_or(t).split('.').next().unwrap_or("").to_string();
-            let stem_clash = model.edges.iter().any(|e| match &e.target {
-                Target::File(t) => {
-                    let j = e.imp.module_segs().join("_");
-                    model.closure.iter().any(|o| o != t && *o != tree.entry && stem_of(o) == j)
-                }
-                _ => false,
-            });
-            if stem_clash {
-                f.insert("collide=stem".into());
+                f.insert("collide=joined-path".into());
             }
             // an unresolved module leaves a placeholder symbol behind; some uses of it are refused (consequence of
             // the resolution finding, not a verdict about visibility)
